@@ -91,6 +91,8 @@ const SET_ZL: &[&str] = &["ZL& = 100000"];
 const SET_ZN: &[&str] = &["ZN% = -1"];
 const DIM_ZR: &[&str] = &["DIM ZR AS ZT"];
 const CONST_ZC: &[&str] = &["CONST ZC = 1"];
+const DECL_SB: &[&str] = &["DECLARE SUB ZSb (ZPA%, ZPB%)"];
+const DECL_FN: &[&str] = &["DECLARE FUNCTION ZFn% (ZPA%, ZPB%)"];
 
 pub const CATALOGUE: &[Fault] = &[
     // ---- wrong argument count: user SUB
@@ -252,6 +254,14 @@ pub const CATALOGUE: &[Fault] = &[
     f("scope:exit-sub-in-function", "EXIT SUB", &[], INS, S | FO),
     f("scope:dim-shared-in-sub", "DIM SHARED ZW%", &[], INS, SO),
     f("scope:dim-shared-in-function", "DIM SHARED ZW%", &[], INS, FO),
+    // ---- a DECLARE that disagrees with an earlier DECLARE and with the implementation (which agree with each other)
+    f("declare-mismatch:sub-count", "DECLARE SUB ZSb (ZPA%)", DECL_SB, TM, NB | MO | H),
+    f("declare-mismatch:sub-more", "DECLARE SUB ZSb (ZPA%, ZPB%, ZPC%)", DECL_SB, TM, NB | MO | H),
+    f("declare-mismatch:sub-type", "DECLARE SUB ZSb (ZPA&, ZPB%)", DECL_SB, TM, NB | MO | H),
+    f("declare-mismatch:sub-none", "DECLARE SUB ZSb", DECL_SB, TM, NB | MO | H | TAIL),
+    f("declare-mismatch:fn-count", "DECLARE FUNCTION ZFn% (ZPA%, ZPB%, ZPC%)", DECL_FN, TM, NB | MO | H),
+    f("declare-mismatch:fn-param-type", "DECLARE FUNCTION ZFn% (ZPA%, ZPB$)", DECL_FN, TM, NB | MO | H),
+    f("declare-mismatch:fn-return", "DECLARE FUNCTION ZFn& (ZPA%, ZPB%)", DECL_FN, TM, NB | MO | H),
     // ---- syntax: string literal without closing quote
     f("syntax-string:print", "PRINT \"abc", &[], P, S | TAIL),
     f("syntax-string:assign", "ZQ$ = \"abc", &[], P, S | TAIL),
@@ -727,6 +737,31 @@ fn build(tape: &[u32], with_calls: bool) -> BuildOut {
         prog.main.push(Stmt::End);
         prog.main.push(Stmt::Label("ZH1".into()));
         prog.main.push(Stmt::Resume(ResumeKind::Next));
+    } else if with_calls && is_runtime(kind) && (which >> 3) % 3 == 1 {
+        // at the start of the main module a SUB is called in which a built-in fails; the handler leaves with RESUME label (the
+        // call is abandoned) and is switched off again: the call sites reported for the injected fault must not list the
+        // abandoned call
+        let zn = VarInfo { name: "ZHN%".into(), sty: STy::B(Ty::Int), bounds: vec![], shared: false };
+        let zt = VarInfo { name: "ZHT$".into(), sty: STy::B(Ty::Str), bounds: vec![], shared: false };
+        let ln = LValue { name: "ZHN%".into(), var: 0, index: vec![], fields: vec![], sty: STy::B(Ty::Int) };
+        let lt = LValue { name: "ZHT$".into(), var: 1, index: vec![], fields: vec![], sty: STy::B(Ty::Str) };
+        let body = vec![
+            Stmt::Assign(ln.clone(), Expr::Un(UnOp::Neg, Box::new(Expr::Lit(Lit::Whole(1))))),
+            Stmt::Assign(lt, Expr::BuiltIn { name: "LEFT$".into(), args: vec![Expr::Lit(Lit::Str("abc".into())), Expr::Load(ln)], ty: Ty::Str }),
+        ];
+        prog.procs.push(Proc { name: "ZHS".into(), ret: None, params: vec![], is_static: false, body, vars: vec![zn, zt], result_var: None });
+        let callee = prog.procs.len() - 1;
+        let pre = vec![Stmt::OnErrorGoto(Some("ZH2".into())), Stmt::CallSub(callee, vec![]), Stmt::Label("ZH3".into()), Stmt::OnErrorGoto(None)];
+        let npre = pre.len();
+        for (k, st) in pre.into_iter().enumerate() {
+            prog.main.insert(k, st);
+        }
+        if scope.is_none() {
+            fault_path = shift_path(&fault_path, npre);
+        }
+        prog.main.push(Stmt::End);
+        prog.main.push(Stmt::Label("ZH2".into()));
+        prog.main.push(Stmt::ResumeLabel("ZH3".into()));
     }
     let mut r = render(&prog, &lay);
     r.text = with_endings(&r.text, eol);
@@ -866,6 +901,12 @@ fn one_case(sh: &mut Shard, tape: &[u32], with_calls: bool) -> Result<(), Violat
     sh.class(&format!("fault:{}", kind));
     sh.class(&format!("eol:{}", b.eol.name()));
     sh.class(&format!("call-depth:{}", e.call_sites.len()));
+    if b.prog.main.iter().any(|s| matches!(s, Stmt::Label(l) if l == "ZH1")) {
+        sh.class("after-handled-builtin-error:resume-next");
+    }
+    if b.prog.main.iter().any(|s| matches!(s, Stmt::Label(l) if l == "ZH2")) {
+        sh.class("after-handled-error-in-sub:resume-label");
+    }
     let sites: Vec<Value> = e.paths.iter().map(|p| site_json(&b.r, p)).filter(|v| !v.is_null()).collect();
     let call_rows: Vec<u32> = e.call_sites.iter().filter_map(|p| b.r.sites.get(p)).map(|s| s.row).collect();
     if call_rows.len() != e.call_sites.len() {
@@ -1291,12 +1332,12 @@ impl Prop for C11 {
         "C11"
     }
     fn rule(&self) -> &'static str {
-        "(1) Matrix: a catalogue of statements with exactly one diagnostic (wrong argument count / argument type for user SUBs, user FUNCTIONs in every expression position, built-in functions and subs; undefined label for GOTO/GOSUB/ON ERROR/RESUME/RETURN; duplicate label/DIM/CONST; assignment to a CONST; type mismatch in every expression position; undefined TYPE / field; unterminated string literal; unbalanced parenthesis; illegal token; incomplete statements; block closers without opener; misplaced EXIT / DIM SHARED; run-time faults: division by zero, overflow, subscript out of range, illegal function call, RETURN without GOSUB, RESUME without error, out of DATA, bad file number, file not found) is placed in small programs written line by line: context (own line, inside 1 or 3 blocks, after / before a colon, THEN / ELSE branch of a one-line IF, in a SUB, in a FUNCTION called from an expression, at the end of a FUNCTION -> SUB -> FUNCTION chain) x line ending (LF, CRLF, CR, three LF/CRLF/CR rotations) x placement (first possible row, middle, last possible row; with and without final line end). (2) Random search: accepted generated programs (core programs and programs with SUB/FUNCTION call chains, 10-60 lines) are rendered under a random layout (keyword/identifier case, blanks/tabs, blank lines, comment lines, trailing comments, colon-joined statements, LF/CRLF/CR or a per-line mix, with or without final line end) and ONE fault is injected by replacing a simple statement chosen anywhere (any nesting depth, main module or procedure): the catalogue's static faults, the original seven static faults, and seven run-time faults expressed in the generator's IR. Expected: reported row = row of the faulted statement, column inside its text (one past its end allowed), error family as the catalogue says; for run-time faults the active call sites (from the construction in (1), from the reference semantics in (2)) must be reported as [fault row, call-site rows innermost first ... main module]. Non-trivial = (1) anything but the plain first-row LF case, (2) fault row >= 3 and preceded by a blank line / comment / colon join / CR, CRLF or mixed endings / enclosing block / enclosing call; distinct by (program text, fault kind)."
+        "(1) Matrix: a catalogue of statements with exactly one diagnostic (wrong argument count / argument type for user SUBs, user FUNCTIONs in every expression position, built-in functions and subs; undefined label for GOTO/GOSUB/ON ERROR/RESUME/RETURN; duplicate label/DIM/CONST; assignment to a CONST; a DECLARE contradicting an earlier DECLARE and the implementation; type mismatch in every expression position; undefined TYPE / field; unterminated string literal; unbalanced parenthesis; illegal token; incomplete statements; block closers without opener; misplaced EXIT / DIM SHARED; run-time faults: division by zero, overflow, subscript out of range, illegal function call, RETURN without GOSUB, RESUME without error, out of DATA, bad file number, file not found) is placed in small programs written line by line: context (own line, inside 1 or 3 blocks, after / before a colon, THEN / ELSE branch of a one-line IF, in a SUB, in a FUNCTION called from an expression, at the end of a FUNCTION -> SUB -> FUNCTION chain) x line ending (LF, CRLF, CR, three LF/CRLF/CR rotations) x placement (first possible row, middle, last possible row; with and without final line end). (2) Random search: accepted generated programs (core programs and programs with SUB/FUNCTION call chains, 10-60 lines) are rendered under a random layout (keyword/identifier case, blanks/tabs, blank lines, comment lines, trailing comments, colon-joined statements, LF/CRLF/CR or a per-line mix, with or without final line end) and ONE fault is injected by replacing a simple statement chosen anywhere (any nesting depth, main module or procedure): the catalogue's static faults, the original seven static faults, and seven run-time faults expressed in the generator's IR. Expected: reported row = row of the faulted statement, column inside its text (one past its end allowed), error family as the catalogue says; for run-time faults the active call sites (from the construction in (1), from the reference semantics in (2)) must be reported as [fault row, call-site rows innermost first ... main module]. Non-trivial = (1) anything but the plain first-row LF case, (2) fault row >= 3 and preceded by a blank line / comment / colon join / CR, CRLF or mixed endings / enclosing block / enclosing call; distinct by (program text, fault kind)."
     }
     fn assumptions(&self) -> Vec<&'static str> {
         vec![
             "columns count characters (a tab is one column)",
-            "only faults with one unambiguous offending statement are injected (no missing END IF / NEXT, no multi-line construct headers, no DECLARE/implementation conflicts)",
+            "only faults with one unambiguous offending statement are injected (no missing END IF / NEXT, no multi-line construct headers; of DECLARE/implementation conflicts only a DECLARE that disagrees with an earlier DECLARE and the implementation, which agree with each other)",
             "run-time faults whose statement the reference run never reaches are discarded",
             "a duplicate definition is diagnosed at the second definition",
             "for a fault in the THEN / ELSE branch of a one-line IF the statement is the branch statement, not the whole line",
